@@ -1444,7 +1444,8 @@ class PGPKey(Armorable, ParentRef, PGPObject):
     def expires_at(self):
         """A :py:obj:`~datetime.datetime` object of when this key is to be considered expired, if any. Otherwise, ``None``"""
         if not self.is_primary:
-            sigs = []
+            # a subkey states its validity period in its most recent binding signature
+            sigs = list(self.self_signatures)[-1:] if self.parent is not None else []
 
         else:
             # a primary key states it in the most recent self-signature of its primary user id (RFC 4880, 5.2.3.3).
@@ -1482,10 +1483,10 @@ class PGPKey(Armorable, ParentRef, PGPObject):
     def is_expired(self):
         """``True`` if this key is expired, otherwise ``False``"""
         expires = self.expires_at
-        if expires is not None:
-            return expires <= datetime.now(timezone.utc)
+        if expires is not None and expires <= datetime.now(timezone.utc):
+            return True
 
-        # a subkey carries no user ids of its own: it is only as good as the primary key it is bound to
+        # a subkey that has not expired itself is only as good as the primary key it is bound to
         if not self.is_primary and self.parent is not None:
             return self.parent.is_expired
 
